@@ -130,8 +130,12 @@ func CalculateAmountToClaim(
 		remainingDepositValue = sdk.NewCoin(deposit.Denom, sdk.NewInt(0))
 	} else {
 		// calculate based on flow rate and remaining deposit
-		timeSinceLast := nowTime.Sub(lastOutflowTime)
-		secondsSinceLast := int64(timeSinceLast.Seconds())
+		// whole seconds since the last outflow. Not via Time.Sub: a Duration saturates at ~292 years
+		// and Duration.Seconds() is a float
+		secondsSinceLast := nowTime.Unix() - lastOutflowTime.Unix()
+		if nowTime.Nanosecond() < lastOutflowTime.Nanosecond() {
+			secondsSinceLast--
+		}
 		// seconds x rate can exceed 64 bits (e.g. 2,000 s at 10^18/s): multiply in arbitrary precision
 		numCoins := sdk.NewInt(secondsSinceLast).Mul(sdk.NewInt(flowRate))
 		amountToClaim = sdk.NewCoin(deposit.Denom, numCoins)
